@@ -202,7 +202,9 @@ class ZopeInterfaceModuleVisitor(extensions.ModuleVisitorExt):
         if not isinstance(expr, ast.Call):
             return
         attr: Optional[model.Documentable] = self.visitor.builder.current.contents.get(target)
-        if attr is None:
+        if not isinstance(attr, model.Attribute):
+            # The name is not (or not only) bound to a variable: 
+            # a method or a nested class does not become an attribute or a field.
             return
         funcName = astbuilder.node2fullname(expr.func, self.visitor.builder.current)
         if funcName is None:
